@@ -1213,4 +1213,26 @@ theorem dropSp_of_no_space (l : Str) (h : ∀ c ∈ l, c ≠ ' ') : dropSp l = l
   | cons c r => exact dropSp_idem_of_head (h c (by simp))
 
 
+
+/-! ### comment lines -/
+
+/-- two lines that are either the same or both comments -/
+def SameUpToComment (ic : Char) (a b : Str) : Prop :=
+  a = b ∨ (isComment ic a = true ∧ isComment ic b = true)
+
+/-- line lists of equal length that agree line by line up to the text of comments -/
+inductive LinesAgree (ic : Char) : List Str → List Str → Prop where
+  | nil : LinesAgree ic [] []
+  | cons {a b : Str} {l1 l2 : List Str} : SameUpToComment ic a b → LinesAgree ic l1 l2 →
+      LinesAgree ic (a :: l1) (b :: l2)
+
+theorem filter_comments_rel (ic : Char) (l1 l2 : List Str) (h : LinesAgree ic l1 l2) :
+    l1.filter (fun l => !isComment ic l) = l2.filter (fun l => !isComment ic l) := by
+  induction h with
+  | nil => rfl
+  | cons hab _ ih =>
+    rcases hab with rfl | ⟨ha, hb⟩
+    · simp [List.filter_cons, ih]
+    · simp [List.filter_cons, ha, hb, ih]
+
 end Pharmpy.C13
